@@ -335,7 +335,8 @@ fn summary_part(ctx: &Ctx, res: &mut PartResult, maxlen: usize) {
     let mut states = vseq::States::new();
     let values = [-2.5, 0.0, 1.0, 3.5, 1e6, 7.25, -100.0];
     let alpha = 0.0001f64;
-    for (count, d) in [(3u32, 20u64), (1, 10), (2, 7)] {
+    // bucket durations in milliseconds, whole and fractional numbers of seconds
+    for (count, d) in [(3u32, 20_000u64), (1, 10_000), (2, 7_000), (2, 1_500), (4, 250), (3, 2_500)] {
         let w = count as u64 * d;
         // incl. gaps whose length is k + 1/2 (and more) bucket durations, and snapshot times just inside / outside 2W
         let mut times: Vec<u64> = vec![0, 1, d / 2, d - 1, d, d + 1, d + d / 2 + 1, w - d, w - 1, w, w + 1, w + d - 1, 2 * w - 1, 2 * w];
@@ -354,25 +355,25 @@ fn summary_part(ctx: &Ctx, res: &mut PartResult, maxlen: usize) {
                     for snap_i in idx.last().cloned().unwrap_or(0)..times.len() {
                         res.executions += 1;
                         let (clock, mock) = Clock::mock();
-                        let mut dist = Distribution::new_summary(Arc::new(vec![Quantile::new(0.0), Quantile::new(0.5), Quantile::new(1.0)]), Duration::from_secs(d), NonZeroU32::new(count).unwrap());
+                        let mut dist = Distribution::new_summary(Arc::new(vec![Quantile::new(0.0), Quantile::new(0.5), Quantile::new(1.0)]), Duration::from_millis(d), NonZeroU32::new(count).unwrap());
                         let mut cur = 0u64;
                         let mut samples: Vec<(u64, f64)> = Vec::new();
                         for (p, ti) in idx.iter().enumerate() {
                             let t = base + times[*ti];
-                            mock.increment(Duration::from_secs(t - cur));
+                            mock.increment(Duration::from_millis(t - cur));
                             cur = t;
                             dist.record_samples(&[(values[p], clock.now())]);
                             samples.push((t, values[p]));
                             res.transitions += 1;
                         }
                         let now = base + times[snap_i];
-                        mock.increment(Duration::from_secs(now - cur));
+                        mock.increment(Duration::from_millis(now - cur));
                         let (snap, total, sum) = match &dist {
                             Distribution::Summary(rs, _, sum) => (rs.snapshot(clock.now()), rs.count(), *sum),
                             _ => unreachable!(),
                         };
                         let replay = json!({"count": count, "d": d, "base": base, "idx": idx, "snap": snap_i});
-                        let describe = || format!("buckets {}x{}s (window {}s), samples (t,value) {:?}, snapshot at t={}", count, d, w, samples, now);
+                        let describe = || format!("buckets {}x{}ms (window {}ms), samples (t ms,value) {:?}, snapshot at t={}ms", count, d, w, samples, now);
                         if total != samples.len() || sum != samples.iter().map(|s| s.1).sum::<f64>() {
                             res.violation("summary-sum-or-count-does-not-cover-all-samples", format!("{}: count {} sum {}", describe(), total, sum), replay.clone());
                         }
@@ -426,8 +427,8 @@ fn summary_part(ctx: &Ctx, res: &mut PartResult, maxlen: usize) {
     }
     res.states = states.len();
     res.distinct_outcomes = states.len();
-    res.bound = json!({"max_samples": maxlen, "bucket_configs": "3x20s, 1x10s, 2x7s", "bases": [0, "10W"]});
-    res.sample(json!({"buckets": "3x20s", "samples_t": [0, 19, 41], "snapshot_t": 61}));
+    res.bound = json!({"max_samples": maxlen, "bucket_configs": "3x20s, 1x10s, 2x7s, 2x1.5s, 4x250ms, 3x2.5s; times in ms", "bases": [0, "10W"]});
+    res.sample(json!({"buckets": "3x20s", "samples_t_ms": [0, 19000, 41000], "snapshot_t_ms": 61000}));
 }
 
 /// The same window semantics through the builder: `set_bucket_duration` x `set_bucket_count` x `set_quantiles`
@@ -438,8 +439,8 @@ fn summary_render(ctx: &Ctx, res: &mut PartResult, maxlen: usize) {
     let values = [-2.5, 1.0, 3.5, 1e6, 0.5, -7.0];
     let alpha = 0.0001f64;
     // None = builder defaults, documented as 3 buckets of 20 s
-    for cfgd in [Some((3u32, 20u64)), Some((1, 10)), Some((2, 7)), None] {
-        let (count, d) = cfgd.unwrap_or((3, 20));
+    for cfgd in [Some((3u32, 20_000u64)), Some((1, 10_000)), Some((2, 7_000)), Some((2, 1_500)), Some((4, 250)), None] {
+        let (count, d) = cfgd.unwrap_or((3, 20_000));
         let w = count as u64 * d;
         let mut times: Vec<u64> = vec![0, d - 1, d, d + d / 2 + 1, w - 1, w, w + 1, 2 * w - 1, 2 * w];
         times.sort();
@@ -457,7 +458,7 @@ fn summary_render(ctx: &Ctx, res: &mut PartResult, maxlen: usize) {
                     let (clock, mock) = Clock::mock();
                     let mut b = PrometheusBuilder::new().set_quantiles(&[0.0, 0.5, 1.0]).unwrap();
                     if cfgd.is_some() {
-                        b = b.set_bucket_duration(Duration::from_secs(d)).unwrap().set_bucket_count(NonZeroU32::new(count).unwrap());
+                        b = b.set_bucket_duration(Duration::from_millis(d)).unwrap().set_bucket_count(NonZeroU32::new(count).unwrap());
                     }
                     let rec = b.build_recorder();
                     let mut samples: Vec<(u64, f64)> = Vec::new();
@@ -466,19 +467,19 @@ fn summary_render(ctx: &Ctx, res: &mut PartResult, maxlen: usize) {
                         let mut cur = 0u64;
                         for (p, ti) in idx.iter().enumerate() {
                             let t = times[*ti];
-                            mock.increment(Duration::from_secs(t - cur));
+                            mock.increment(Duration::from_millis(t - cur));
                             cur = t;
                             h.record(values[p]);
                             samples.push((t, values[p]));
                             res.transitions += 1;
                         }
                         let now = times[snap_i];
-                        mock.increment(Duration::from_secs(now - cur));
+                        mock.increment(Duration::from_millis(now - cur));
                         rec.handle().render()
                     });
                     let now = times[snap_i];
                     let replay = json!({"cfg": format!("{:?}", cfgd), "idx": idx, "snap": snap_i});
-                    let describe = || format!("builder buckets {:?} (window {}s), samples (t,value) {:?}, render at t={}", cfgd, w, samples, now);
+                    let describe = || format!("builder buckets {:?} ms (window {}ms), samples (t ms,value) {:?}, render at t={}ms", cfgd, w, samples, now);
                     let fams = match promtext::parse(&text) {
                         Ok(f) => f,
                         Err(e) => {
@@ -549,8 +550,8 @@ fn summary_render(ctx: &Ctx, res: &mut PartResult, maxlen: usize) {
     }
     res.states = states.len();
     res.distinct_outcomes = states.len();
-    res.bound = json!({"max_samples": maxlen, "builder_configs": "3x20s, 1x10s, 2x7s, defaults (3x20s)"});
-    res.sample(json!({"builder": "set_bucket_duration(7s).set_bucket_count(2)", "samples_t": [0, 6], "render_t": 15, "expected": "quantiles 0 (window empty), _count 2"}));
+    res.bound = json!({"max_samples": maxlen, "builder_configs": "3x20s, 1x10s, 2x7s, 2x1.5s, 4x250ms, defaults (3x20s); times in ms"});
+    res.sample(json!({"builder": "set_bucket_duration(7s).set_bucket_count(2)", "samples_t_ms": [0, 6000], "render_t_ms": 15000, "expected": "quantiles 0 (window empty), _count 2"}));
 }
 
 fn parts(ctx: &Ctx) -> Vec<PartSpec> {
@@ -586,7 +587,7 @@ fn main() {
     driver::main(CheckDef {
         prop: "C15",
         level: "model_checking",
-        rule: "histogram: all ascending bound lists of <= 3 bounds over {-1,0,1,2.5,+inf} x all sample sequences up to the stated length over {-2,-1,0,0.5,1,2.5,3,NaN,+inf,-inf} x all batchings into record()/record_many() calls on the real storage Histogram, and through render() with renders between batches; matchers: all override sets up to the stated size over {Full,Prefix,Suffix} x {a,ab,b,a.b,1a} with/without global buckets x all names of length <= 3 over {a,b,.,1} (distinct bucket lists identify the winning matcher); rolling summary: all non-decreasing sample timelines up to the stated length over {0,1,d-1,d,d+1,W-d,W-1,W,W+1,2W} x all later snapshot times, 3 bucket configurations, 2 time bases, under quanta's mock clock; distinct = distinct bucket vectors / (type, winner) / quantile triples",
+        rule: "histogram: all ascending bound lists of <= 3 bounds over {-1,0,1,2.5,+inf} x all sample sequences up to the stated length over {-2,-1,0,0.5,1,2.5,3,NaN,+inf,-inf} x all batchings into record()/record_many() calls on the real storage Histogram, and through render() with renders between batches; matchers: all override sets up to the stated size over {Full,Prefix,Suffix} x {a,ab,b,a.b,1a} with/without global buckets x all names of length <= 3 over {a,b,.,1} (distinct bucket lists identify the winning matcher); rolling summary: all non-decreasing sample timelines up to the stated length over {0,1,d-1,d,d+1,W-d,W-1,W,W+1,2W} x all later snapshot times (millisecond resolution), 6 bucket configurations (3x20s, 1x10s, 2x7s and the fractional 2x1.5s, 4x250ms, 3x2.5s), 2 time bases, under quanta's mock clock; distinct = distinct bucket vectors / (type, winner) / quantile triples",
         assumptions: &["matcher reference is on the names as the user writes them; cases where only sanitisation makes a matcher apply are left unjudged", "rolling summary oracle is exactly the property: quantiles within [min,max](1±alpha) of samples newer than now-W; empty allowed only when no sample is newer than now-(W-d)"],
         parts,
         run,
